@@ -40,8 +40,8 @@ class Instr:
                 s._v["events"].append(dict(k=s.spawn_stack.izeta - iz0, ratios=ratios, ns=ns, kids=[], ntargets=len(out), state=st,
                                            targets=[int(h["target"]) for h in out]))
             return out
-        def clone(s, spawn_stack=None):
-            c = inst.o_clone(s, spawn_stack)
+        def clone(s, *a, **k):
+            c = inst.o_clone(s, *a, **k)
             c._v["parent"] = s._v["id"]
             if s._v["events"]:
                 s._v["events"][-1]["kids"].append(c._v["id"])
@@ -178,8 +178,9 @@ def run(tier, seed):
         d = os.path.join(tmproot, "b%d" % it); os.makedirs(d)
         tm = TraceManager(TraceType=InMemoryTrace) if backend == "memory" else TraceManager(TraceType=YAMLTrace, trace_kwargs=dict(location=d, log_pitch=16))
         with Instr() as inst:
+            nsamp = 2 if (kind == 1 and it % 2 == 1) else 1        # the same explicit SpawnStack object serves two initial conditions
             b = BatchedTraj(M[mname](), TrajGenConst([x0], [k], 0, seed=rng.randrange(2 ** 31)), EvenSamplingTrajectory,
-                            samples=1, dt=dt, bounds=[-bound, bound], tracemanager=tm, max_steps=800, **opts)
+                            samples=nsamp, dt=dt, bounds=[-bound, bound], tracemanager=tm, max_steps=800, **opts)
             r = b.compute()
             bad += inst.bad
             info = dict(model=mname, k=k, dt=dt, backend=backend, opts={kk: (vv if not isinstance(vv, SpawnStack) else "explicit tree") for kk, vv in opts.items()}, ntraj=len(inst.trajs))
@@ -222,6 +223,7 @@ def run(tier, seed):
                     bad.append(dict(failed="a trajectory ends by the box rule only after having been inside the box and having left it (trajectory %d ended at x=%r after %d snapshots, ever inside: %r)"
                                     % (t._v["id"], xs[-1], len(xs), was_inside), case=info)); break
             res.count("box-small" if bound == 1.0 else "box-wide")
+            if len(roots) > 1: res.count("stack-object-reused")
             out = np.array(r.outcome())
             if abs(out.sum() - 1.0) > 1e-12:
                 bad.append(dict(failed="batch outcomes sum to one (sum=%r)" % float(out.sum()), case=info))
